@@ -93,6 +93,8 @@ def main():
             fail("type round trip / sugar = general form", f"{t!r} -> {u!r}")
         elif len(samples) < 3 and isinstance(t, T.Either):
             samples.append({"type": repr(t)[:80], "doc": json.dumps(doc(s))[:120]})
+    from bounded.reuse import iterable_constructor_checks
+    ev += iterable_constructor_checks(fail, doc)
     args = [T.TypeTypeArg(T.Bool), T.BoundedNatArg(5), T.StringArg("x"), T.ExtensionsArg(["a", "b"]), T.VariableArg(2, T.BoundedNatParam(4)),
             T.SequenceArg([T.TypeTypeArg(T.Qubit), T.BoundedNatArg(1)]), T.SequenceArg([]), T.TypeTypeArg(T.Tuple(T.Bool, INT_T))]
     for a in args:
